@@ -257,6 +257,11 @@ class CEMILData(CEMIData):
         )
 
         _npdu_len = raw[6]
+        if _npdu_len > MAX_NPDU_LENGTH:
+            # 255 is the escape code of the length field, not a length
+            raise UnsupportedCEMIMessage(
+                f"NPDU length escape code not supported from {src_addr} in CEMI: {raw.hex()}"
+            )
         _tpdu = raw[7:]
         _apdu = bytes([_tpdu[0] & 0b11]) + _tpdu[1:]  # clear TPCI bits
         if len(_apdu) != (_npdu_len + 1):  # TCPI octet not included in NPDU length
